@@ -337,7 +337,7 @@ func gen(t *rapid.T) Case {
 		sites := reachableRefs(lay)
 		if len(sites) > 0 {
 			s := sites[rapid.IntRange(0, len(sites)-1).Draw(t, "site")]
-			kind := rapid.SampledFrom([]string{"missing-name", "missing-file", "missing-pointer", "wrong-kind", "missing-name-shadowed", "renamed-path-variable"}).Draw(t, "breakkind")
+			kind := rapid.SampledFrom([]string{"missing-name", "missing-file", "missing-pointer", "wrong-kind", "missing-name-shadowed", "renamed-path-variable", "null-target"}).Draw(t, "breakkind")
 			nr := breakRef(s.Ref, kind)
 			if kind == "wrong-kind" {
 				nr, kind = wrongKindRef(t, lay, s)
@@ -345,6 +345,30 @@ func gen(t *rapid.T) Case {
 			var shadow any
 			if kind == "missing-name-shadowed" {
 				nr, shadow = shadowedMissing(lay, s)
+			}
+			if kind == "null-target" {
+				// the component the reference names is there, but it is null
+				// (not for examples: the loader takes a null example component for an empty example object,
+				// and whether null is an Example Object is not for this property to say)
+				if m := reCompRef.FindStringSubmatch(s.Ref); m != nil && m[2] != "examples" {
+					tf := s.File
+					if m[1] != "" {
+						tf = fsgen.ResolvePath(s.File, m[1])
+					}
+					var td map[string]any
+					if json.Unmarshal([]byte(lay.Files[tf]), &td) == nil {
+						if comps, ok := td["components"].(map[string]any); ok {
+							if sec, ok := comps[m[2]].(map[string]any); ok {
+								if _, has := sec[m[3]]; has {
+									sec[m[3]] = nil
+									b, _ := json.Marshal(td)
+									lay.Files[tf] = string(b)
+									c.Break = kind
+								}
+							}
+						}
+					}
+				}
 			}
 			if nr != "" {
 				var v any
